@@ -236,6 +236,26 @@ def compare(got, want, B):
     return got == want
 
 
+def all_two_way_splits(r):
+    """Every cut of the longer bodies (form kinds) in two, on both interfaces, read once through each of form / body / stream."""
+    for kind, (B, ct) in KINDS.items():
+        if len(B) <= 12:
+            continue
+        for cut in range(1, len(B)):
+            chunks = [B[:cut], B[cut:]]
+            for iface in ("wsgi", "asgi"):
+                for seq in (("form",), ("body",), ("stream_full",), ("form", "form")):
+                    probs, key, results = run_sequence(iface, kind, chunks, seq, None)
+                    r.count("evaluations")
+                    r.count("traces")
+                    r.count("distinct_nontrivial")
+                    if probs:
+                        i, op, got, want = probs[0]
+                        r.violation(f"splits:{iface}:{op}", {"mode": "seq", "iface": iface, "kind": kind, "chunks": chunks, "disc_at": None, "seq": list(seq)},
+                                    f"{iface} {kind} body cut at byte {cut} of {len(B)}, accesses {list(seq)}: step {i} ({op}) gave {got!r:.160}, documented behaviour {want!r:.160}")
+    r.sample({"mode": "splits", "kinds": [k for k, v in KINDS.items() if len(v[0]) > 12], "cuts": "every position"})
+
+
 def rearmed_inputs(r):
     """WSGI: the same wsgi.input object serves several requests one after another (a server that re-arms one input per keep-alive
     connection), or is rewound by a middleware that read the body through a request object of its own: every request object
@@ -815,7 +835,7 @@ def big_bodies(r):
 
 
 def shards(tier, seed):
-    out = [("big",), ("subrequests",), ("readfault",), ("rearmed",)] + [("two", k, 8) for k in range(8)]
+    out = [("big",), ("subrequests",), ("readfault",), ("rearmed",), ("splits",)] + [("two", k, 8) for k in range(8)]
     for iface in ("wsgi", "asgi"):
         for kind in KINDS:
             out.append(("seq", iface, kind))
@@ -839,6 +859,10 @@ def run_shard(desc, tier):
         return r
     if desc[0] == "two":
         two_requests(r, desc[1], desc[2])
+        return r
+    if desc[0] == "splits":
+        all_two_way_splits(r)
+        r.count("states", 1)
         return r
     if desc[0] == "rearmed":
         rearmed_inputs(r)
